@@ -110,9 +110,11 @@ theorem sendClose_DP (s : S) (c : Option Nat) (r : Option Bytes) : DP s (sendClo
     · exact sendCloseFrame_DP _ _ _ _
 
 theorem dropConnection_DP (s : S) (a : Bool) : DP s (dropConnection s a) := by
-  unfold dropConnection
+  unfold dropConnection flushQueue
   split
-  · exact DP.of_same rfl rfl rfl rfl
+  · cases a
+    · exact DP.of_same rfl rfl rfl rfl
+    · exact DP.of_same rfl rfl rfl rfl
   · exact DP.refl s
 
 theorem failConnection_DP (s : S) (code : Nat) : DP s (failConnection s code) := by
@@ -188,16 +190,16 @@ theorem connectionLost_DP (s : S) : DP s (connectionLost s) := by
   split
   · exact DP.refl s
   · refine DP.of_le ?_ ?_ ?_ ?_
-    · unfold reportClose markClosed cancelOnLost
-      split <;> split <;> (try split) <;> exact Nat.le_refl _
-    · unfold reportClose markClosed cancelOnLost
-      split <;> split <;> (try split) <;> rfl
+    · unfold reportClose unsentUnclean markClosed cancelOnLost
+      split <;> split <;> (try split) <;> (try split) <;> exact Nat.le_refl _
+    · unfold reportClose unsentUnclean markClosed cancelOnLost
+      split <;> split <;> (try split) <;> (try split) <;> rfl
     · left
-      unfold reportClose markClosed cancelOnLost
-      split <;> split <;> (try split) <;> rfl
+      unfold reportClose unsentUnclean markClosed cancelOnLost
+      split <;> split <;> (try split) <;> (try split) <;> rfl
     · right
-      unfold reportClose markClosed cancelOnLost
-      split <;> split <;> (try split) <;> rfl
+      unfold reportClose unsentUnclean markClosed cancelOnLost
+      split <;> split <;> (try split) <;> (try split) <;> rfl
 
 theorem sendAutoPing_DP (s : S) : DP s (sendAutoPing s) := by
   unfold sendAutoPing
